@@ -38,6 +38,14 @@ func MemoKeys(p *load.Program, run *report.Run) {
 				if !ok || fd.Body == nil {
 					continue
 				}
+				memoHelperDecls = map[types.Object]*ast.FuncDecl{}
+				for _, f2 := range pk.Syntax {
+					for _, d2 := range f2.Decls {
+						if fd2, ok := d2.(*ast.FuncDecl); ok {
+							memoHelperDecls[pk.TypesInfo.Defs[fd2.Name]] = fd2
+						}
+					}
+				}
 				for _, v := range memoKeyCheck(pk.TypesInfo, fd) {
 					tables++
 					key := strings.TrimPrefix(pk.PkgPath, load.Module+"/") + "." + fd.Name.Name + "/" + v.table
@@ -76,8 +84,34 @@ type memoVerdict struct {
 
 // paramPaths lists the selector chains rooted at a parameter that occur in n (x.bits, instr.Out.Type.Bits).
 func paramPaths(info *types.Info, params map[types.Object]bool, n ast.Node) map[string]bool {
+	return paramPathsSkipping(info, params, n, nil)
+}
+
+// paramPathsSkipping: as paramPaths, without the sub-expressions whose text is in skip (a key component that
+// merges several fields: a read inside the very same expression is a read of the component) and without the
+// left-hand sides of assignments (a field the function sets is not an input).
+func paramPathsSkipping(info *types.Info, params map[types.Object]bool, n ast.Node, skip map[string]bool) map[string]bool {
 	out := map[string]bool{}
+	written := map[ast.Expr]bool{}
+	if skip != nil {
+		ast.Inspect(n, func(m ast.Node) bool {
+			if as, ok := m.(*ast.AssignStmt); ok && as.Tok == token.ASSIGN {
+				for _, l := range as.Lhs {
+					written[ast.Unparen(l)] = true
+				}
+			}
+			return true
+		})
+	}
 	ast.Inspect(n, func(m ast.Node) bool {
+		if e, ok := m.(ast.Expr); ok && skip != nil {
+			if written[e] {
+				return false
+			}
+			if _, isCall := e.(*ast.CallExpr); isCall && skip[types.ExprString(e)] {
+				return false
+			}
+		}
 		sel, ok := m.(*ast.SelectorExpr)
 		if !ok {
 			return true
@@ -184,6 +218,7 @@ func memoKeyCheck(info *types.Info, fd *ast.FuncDecl) []memoVerdict {
 		u := tables[name]
 		// the components of the key: the key expression itself, or, for a key variable, the values it was given
 		comps := map[string]bool{}
+		opaque := map[string]bool{}
 		var addComp func(e ast.Expr, depth int)
 		addComp = func(e ast.Expr, depth int) {
 			e = ast.Unparen(e)
@@ -204,9 +239,12 @@ func memoKeyCheck(info *types.Info, fd *ast.FuncDecl) []memoVerdict {
 					}
 				}
 			case *ast.CallExpr:
-				// a conversion keeps the value; any other call merges its inputs
+				// a conversion keeps the value; any other call merges its inputs: the merged value is a
+				// component as a whole (a read inside the same expression elsewhere reads that component)
 				if tv, ok := info.Types[t.Fun]; ok && tv.IsType() && len(t.Args) == 1 {
 					addComp(t.Args[0], depth+1)
+				} else {
+					opaque[types.ExprString(t)] = true
 				}
 			case *ast.Ident:
 				obj := info.ObjectOf(t)
@@ -244,8 +282,27 @@ func memoKeyCheck(info *types.Info, fd *ast.FuncDecl) []memoVerdict {
 		}
 		missing := ""
 		var reads []string
-		for r := range paramPaths(info, params, fd.Body) {
+		for r := range paramPathsSkipping(info, params, fd.Body, opaque) {
 			reads = append(reads, r)
+		}
+		// helpers of the package that are handed the parameters under their own names build the object too
+		for _, h := range memoHelpers(info, fd, params) {
+			hp := map[types.Object]bool{}
+			if h.Recv != nil {
+				for _, f := range h.Recv.List {
+					for _, n := range f.Names {
+						hp[info.ObjectOf(n)] = true
+					}
+				}
+			}
+			for _, f := range h.Type.Params.List {
+				for _, n := range f.Names {
+					hp[info.ObjectOf(n)] = true
+				}
+			}
+			for r := range paramPathsSkipping(info, hp, h.Body, opaque) {
+				reads = append(reads, r)
+			}
 		}
 		sort.Strings(reads)
 		for _, r := range reads {
@@ -329,4 +386,56 @@ func lossy(x, y *num) *circ {
 		}
 	}
 	return good, bad, nil
+}
+
+// memoHelperDecls is set by MemoKeys: the function declarations of the package under analysis by object.
+var memoHelperDecls map[types.Object]*ast.FuncDecl
+
+// memoHelpers: functions of the package called in fd with receiver and arguments that are parameters of fd
+// passed under the names the callee gives them (the callee's reads are then reads of fd's parameters).
+func memoHelpers(info *types.Info, fd *ast.FuncDecl, params map[types.Object]bool) []*ast.FuncDecl {
+	var out []*ast.FuncDecl
+	ast.Inspect(fd.Body, func(n ast.Node) bool {
+		c, ok := n.(*ast.CallExpr)
+		if !ok {
+			return true
+		}
+		var obj types.Object
+		var recvName string
+		switch t := c.Fun.(type) {
+		case *ast.Ident:
+			obj = info.Uses[t]
+		case *ast.SelectorExpr:
+			obj = info.Uses[t.Sel]
+			if id, ok := ast.Unparen(t.X).(*ast.Ident); ok && params[info.ObjectOf(id)] {
+				recvName = id.Name
+			}
+		}
+		h := memoHelperDecls[obj]
+		if h == nil || h == fd || h.Body == nil {
+			return true
+		}
+		if h.Recv != nil {
+			if len(h.Recv.List) != 1 || len(h.Recv.List[0].Names) != 1 || h.Recv.List[0].Names[0].Name != recvName {
+				return true
+			}
+		}
+		i := 0
+		same := true
+		for _, f := range h.Type.Params.List {
+			for _, nm := range f.Names {
+				if i < len(c.Args) {
+					if id, ok := ast.Unparen(c.Args[i]).(*ast.Ident); ok && params[info.ObjectOf(id)] && id.Name != nm.Name {
+						same = false
+					}
+				}
+				i++
+			}
+		}
+		if same {
+			out = append(out, h)
+		}
+		return true
+	})
+	return out
 }
